@@ -18,6 +18,7 @@ import random
 import re
 import shutil
 import subprocess
+import sys
 import tempfile
 from concurrent.futures import ThreadPoolExecutor
 
@@ -240,6 +241,70 @@ def run(ck):
                           "identities of a configuration changed after %d other pipelines were built and run" % len(first_obs),
                           {"kind": "history", "nodes": nodes})
 
+    # ---- order of calls on one configuration object (inspect-then-run, run-then-inspect, ...), also with explicit
+    #      null `parameters:`; the reference is the pristine observation above
+    shared_runs = 0
+    orders = [("payload", "pipeline"), ("inspect", "pipeline", "payload"), ("pipeline", "payload", "canonical"), ("inspect", "canonical", "pipeline")]
+    for si, (nodes, ob) in enumerate(first_obs[: (80 if thorough else 14)]):
+        for variant, vn in (("as-written", nodes), ("null-parameters", G.null_params(nodes))):
+            if vn is None:
+                continue
+            try:
+                ref = ob if variant == "as-written" else G.observe(vn, runs=1)
+            except G.Mismatch as ex:
+                ck.fail_input("C04:paths:disagree-on-pristine-configuration:" + variant,
+                              "the identity paths of one pristine configuration disagree: %s" % ex, {"kind": "shared", "nodes": vn, "order": []})
+                continue
+            except Exception:  # noqa - the null variant is not accepted: nothing to compare
+                continue
+            order = orders[(si + (variant != "as-written")) % len(orders)]
+            try:
+                got = G.observe_shared(vn, order)
+            except Exception as ex:  # noqa
+                ck.fail_input("C04:one-object:operation-fails-after-another:" + variant,
+                              "operations %s on one configuration object: %r (each alone succeeds)" % (list(order), ex),
+                              {"kind": "shared", "nodes": vn, "order": list(order)})
+                continue
+            shared_runs += 1
+            evaluations += len(order)
+            for op, ids in got:
+                bad = [f for f, rf in (("uuids", "uuids"), ("nodesem", "nodesem"), ("semid", "semid"), ("cfgid", "cfgid"), ("plid", "plid"), ("run_plid", "plid"))
+                       if f in ids and ids[f] is not None and ids[f] != ref[rf]]
+                if bad:
+                    ck.fail_input("C04:one-object:identity-depends-on-earlier-calls:%s:%s" % (variant, ",".join(bad)),
+                                  "after %s on ONE configuration object, %s gives %s different from the pristine configuration's"
+                                  % (list(order[:order.index(op)]), op, bad), {"kind": "shared", "nodes": vn, "order": list(order), "at": op})
+                    break
+    stats["one_object_sequences"] = shared_runs
+
+    # ---- set-valued internals: the same configurations inspected in fresh processes under different hash seeds
+    hs_cfgs = G.hashseed_configs()
+    hs_out = {}
+
+    def hs_job(seed):
+        p = subprocess.run([sys.executable, "-c", G.HASHSEED_CHILD], input=json.dumps(hs_cfgs), text=True, capture_output=True,
+                           env=dict(os.environ, PYTHONHASHSEED=str(seed)), timeout=300)
+        line = [l for l in p.stdout.split("\n") if l.startswith("IDS ")]
+        return seed, (json.loads(line[0][4:]) if line else None), p.stderr[-400:]
+    with ThreadPoolExecutor(max_workers=8) as ex:
+        for seed, res, err in ex.map(hs_job, list(range(12 if thorough else 6)) + ["random"]):
+            if res is None:
+                ck.corr_problem("hash-seed child failed (PYTHONHASHSEED=%s)" % seed, err)
+            else:
+                hs_out[seed] = res
+    for ci in range(len(hs_cfgs)):
+        seen_vals = {}
+        for seed, res in hs_out.items():
+            seen_vals.setdefault(json.dumps(res[ci], sort_keys=True), []).append(seed)
+        evaluations += len(hs_out)
+        if len(seen_vals) > 1:
+            ck.fail_input("C04:hash-seed:identities-differ-between-processes",
+                          "configuration %d gives %d different identity sets over PYTHONHASHSEED %s" % (ci, len(seen_vals), sorted(map(str, hs_out))),
+                          {"kind": "hashseed", "nodes": hs_cfgs[ci], "by_seed": {str(v): json.loads(k) for k, v in seen_vals.items()}})
+        elif any("error" in r[ci] for r in hs_out.values()):
+            ck.corr_problem("hash-seed configuration %d is rejected" % ci, json.dumps(next(iter(hs_out.values()))[ci]))
+    stats["hash_seed_processes"] = len(hs_out)
+
     # ---- fresh processes x hash seeds x working directories
     def job(j):
         bi, kind, fpath, seed, cwd = j
@@ -351,7 +416,23 @@ def replay(obj):
     G.setup()
     r = obj["replay"]
     nodes = r["nodes"]
-    print("configuration:", json.dumps(nodes))
+    print("configuration:", json.dumps(nodes, default=str))
+    if r.get("kind") == "shared":
+        try:
+            ref = G.observe(nodes, runs=1)
+        except G.Mismatch as ex:
+            print("identity paths of the pristine configuration disagree:", ex)
+            return 1
+        rc = 0
+        for op, ids in G.observe_shared(nodes, r.get("order") or ["payload", "pipeline"]):
+            bad = [f for f, rf in (("uuids", "uuids"), ("semid", "semid"), ("cfgid", "cfgid"), ("plid", "plid"), ("run_plid", "plid"))
+                   if ids.get(f) is not None and ids[f] != ref[rf]]
+            print("  after", op, "->", "DIFFERENT " + ",".join(bad) if bad else "same as pristine")
+            rc = rc or bool(bad)
+        return int(rc)
+    if r.get("kind") == "hashseed":
+        print("identity sets by PYTHONHASHSEED:", json.dumps(r.get("by_seed"), indent=1)[:2000])
+        return 1
     if r.get("kind") == "two-runs" or not r.get("yaml"):
         ob = G.observe(nodes)
         print("pipeline_id of two traced runs of one Pipeline object:", ob["run_plids"])
